@@ -832,3 +832,33 @@ func (c *Ctx) runInline(fr *inlineFrame, st *State, rt types.Type) *Val {
 }
 
 var _ = big.NewInt
+
+// fnTypesPkg / fnPkgPath: the package a function belongs to; an instantiation of a generic
+// function belongs to no package of its own: its origin's package is used.
+func fnTypesPkg(f *ssa.Function) *types.Package {
+	for f != nil {
+		if f.Pkg != nil {
+			return f.Pkg.Pkg
+		}
+		if o := f.Origin(); o != nil && o != f {
+			f = o
+			continue
+		}
+		if f.Parent() != nil {
+			f = f.Parent()
+			continue
+		}
+		if f.Object() != nil {
+			return f.Object().Pkg()
+		}
+		break
+	}
+	return nil
+}
+
+func fnPkgPath(f *ssa.Function) string {
+	if p := fnTypesPkg(f); p != nil {
+		return p.Path()
+	}
+	return ""
+}
